@@ -161,3 +161,15 @@ Theorem C02_sighash_constants_match :
   lookup sighash_consts "Mask" = Some (Z.of_N sh_mask).
 Proof. destruct sighash_consts_match as (H1 & H2 & H3 & H4 & H5 & H6 & _). repeat split; assumption. Qed.
 Print Assumptions C02_sighash_constants_match.
+
+(** State inventory (tie, translator part): every Go struct the model of this property represents has, in the
+    source as it is NOW (gen/Structs.v, regenerated on every run), exactly the fields - names, types, order - the
+    model was written against (model/StateInventory.v).  New state in these objects (a memoised digest, a cached
+    document, a remembered operand) is state the theorems above do not speak about: this is the obligation that
+    stops checking then. *)
+From GoBT Require gen.Structs model.StateInventory.
+Theorem C02_state_inventory :
+  forall k, In k (StateInventory.group_of "C02") ->
+  exists f, StateInventory.lookup_gen gen.Structs.structs k = Some f /\ StateInventory.lookup_model k = Some f.
+Proof. apply StateInventory.inventory_ok_spec. vm_compute. reflexivity. Qed.
+Print Assumptions C02_state_inventory.
